@@ -237,6 +237,10 @@ class Engine(OpsMixin):
         if isinstance(v, SymFloat):
             if v.ival is not None:
                 return self.truth(v.ival)
+            if v.dec is not None:
+                return True
+            if v.quot is not None:
+                return self.truth(v.quot[0]) if False else self.truth(self.cmp("NotEq", v.quot[0], 0))
             return self.decide(z3.Not(z3.fpIsZero(self.to_fp(v))))
         if isinstance(v, Opaque):
             raise Unsupported("truth value of opaque payload")
@@ -408,6 +412,13 @@ class Engine(OpsMixin):
         if isinstance(v, SymFloat):
             if v.ival is not None:
                 return float(self.concretize_value(m, v.ival))
+            if v.dec is not None:
+                neg, digits, e10 = v.dec
+                ds = "".join(str(self.concretize_value(m, d)) for d in digits)
+                ng = self.concretize_value(m, neg)
+                return float(("-" if ng else "") + ds[0] + "." + (ds[1:] or "0") + "e" + str(e10))
+            if v.quot is not None:
+                return self.concretize_value(m, v.quot[0]) / v.quot[1]
             x = m.eval(self.to_fp(v), model_completion=True)
             return _fp_to_py(x)
         if isinstance(v, (list, tuple)):
@@ -1407,6 +1418,8 @@ class Engine(OpsMixin):
             return x
         if isinstance(x, (SymInt, SymBV)):
             return LazyStr([("int", x)])
+        if isinstance(x, SymFloat) and x.dec is not None:
+            return LazyStr([("float", x)])
         if isinstance(x, SymBool):
             return "True" if self.truth(x) else "False"
         if is_sym(x) or isinstance(x, Opaque):
@@ -1434,9 +1447,33 @@ class Engine(OpsMixin):
                 cs.extend(chars(p))
             elif isinstance(p, tuple) and p[0] == "int":
                 cs.extend(chars(self.int_to_str(p[1])))
+            elif isinstance(p, tuple) and p[0] == "float":
+                cs.extend(self.float_repr_chars(p[1]))
             else:
                 raise Unsupported("inspection of a string containing an opaque value")
         return mkstr(cs)
+
+    def float_repr_chars(self, f):
+        """repr(float) of a decimal-defined float: CPython's 'r' format (scientific iff e10 < -4 or e10 >= 16)"""
+        neg, digits, e10 = f.dec
+        ds = [self.op("Add", d, 48) for d in digits]
+        out = []
+        if self.truth(neg):
+            out.append(45)
+        n = len(ds)
+        if e10 < -4 or e10 >= 16:
+            out.append(ds[0])
+            if n > 1:
+                out.append(46)
+                out.extend(ds[1:])
+            out.extend(ord(c) for c in ("e-" if e10 < 0 else "e+") + ("%02d" % abs(e10)))
+        elif e10 < 0:
+            out.extend([48, 46] + [48] * (-e10 - 1) + ds)
+        else:
+            ip = ds[: e10 + 1] + [48] * max(0, e10 + 1 - n)
+            fp = ds[e10 + 1:] or [48]
+            out.extend(ip + [46] + fp)
+        return out
 
     def int_to_str(self, x, max_digits=40):
         if isinstance(x, int):
